@@ -160,6 +160,11 @@ struct DebugCounters {
     /// How many per-subscriber filters have participated in the current `register_callsite`
     /// call?
     in_interest_pass: Cell<usize>,
+
+    /// Which per-subscriber filters have participated in the current filter
+    /// pass? A filter usually joins the pass in `enabled`; for a callsite whose
+    /// interest is `always`, `enabled` is skipped and it joins in `event_enabled`.
+    filters_in_pass: Cell<u64>,
 }
 
 #[cfg(debug_assertions)]
@@ -168,6 +173,7 @@ impl DebugCounters {
         Self {
             in_filter_pass: Cell::new(0),
             in_interest_pass: Cell::new(0),
+            filters_in_pass: Cell::new(0),
         }
     }
 }
@@ -1101,19 +1107,30 @@ impl FilterState {
     fn set(&self, filter: FilterId, enabled: bool) {
         #[cfg(debug_assertions)]
         {
-            let in_current_pass = self.counters.in_filter_pass.get();
-            if in_current_pass == 0 {
-                debug_assert_eq!(self.enabled.get(), FilterMap::new());
-            }
-            self.counters.in_filter_pass.set(in_current_pass + 1);
-            debug_assert_eq!(
-                self.counters.in_interest_pass.get(),
-                0,
-                "if we are in or starting a filter pass, we must not be in an interest pass."
-            )
+            self.join_filter_pass(filter);
         }
 
         self.enabled.set(self.enabled.get().set(filter, enabled))
+    }
+
+    /// Debug-only bookkeeping: `filter` takes part in the current filter pass
+    /// (starting one, if none is in progress).
+    #[cfg(debug_assertions)]
+    fn join_filter_pass(&self, FilterId(filter): FilterId) {
+        let in_current_pass = self.counters.in_filter_pass.get();
+        if in_current_pass == 0 {
+            debug_assert_eq!(self.enabled.get(), FilterMap::new());
+            self.counters.filters_in_pass.set(0);
+        }
+        self.counters.in_filter_pass.set(in_current_pass + 1);
+        self.counters
+            .filters_in_pass
+            .set(self.counters.filters_in_pass.get() | filter);
+        debug_assert_eq!(
+            self.counters.in_interest_pass.get(),
+            0,
+            "if we are in or starting a filter pass, we must not be in an interest pass."
+        )
     }
 
     fn add_interest(&self, interest: Interest) {
@@ -1155,6 +1172,7 @@ impl FilterState {
                     // counter in `did_enable`. Reset it.
                     if !enabled {
                         this.counters.in_filter_pass.set(0);
+                        this.counters.filters_in_pass.set(0);
                     }
                 }
                 enabled
@@ -1190,6 +1208,9 @@ impl FilterState {
             self.counters
                 .in_filter_pass
                 .set(in_current_pass.saturating_sub(1));
+            self.counters
+                .filters_in_pass
+                .set(self.counters.filters_in_pass.get() & !filter.0);
             debug_assert_eq!(
                 self.counters.in_interest_pass.get(),
                 0,
@@ -1200,6 +1221,13 @@ impl FilterState {
 
     /// Run a second filtering pass, e.g. for Subscribe::event_enabled.
     fn and(&self, filter: FilterId, f: impl FnOnce() -> bool) -> bool {
+        // If the callsite's interest is `always`, `enabled` was not called for
+        // this event and this is where the filter joins the filter pass.
+        #[cfg(debug_assertions)]
+        if self.counters.filters_in_pass.get() & filter.0 == 0 {
+            self.join_filter_pass(filter);
+        }
+
         let map = self.enabled.get();
         let enabled = map.is_enabled(filter) && f();
         self.enabled.set(map.set(filter, enabled));
@@ -1218,7 +1246,10 @@ impl FilterState {
             filtering.enabled.set(FilterMap::new());
 
             #[cfg(debug_assertions)]
-            filtering.counters.in_filter_pass.set(0);
+            {
+                filtering.counters.in_filter_pass.set(0);
+                filtering.counters.filters_in_pass.set(0);
+            }
         });
     }
 
